@@ -89,11 +89,44 @@ def rule_fallback(ctx, r):
         # (os.path, pathlib) the default must be the directory of the file's real path, as a string
         from ..symeval import SymPath
         real = lambda p_: str(p_).replace("/link/", "/real/", 1) if str(p_).startswith("/link/") else str(p_)
-        hooks = {"inspect.getfile": lambda *a, **k: "/link/proj/workflow.py", "sys._getframe": lambda *a, **k: Obj("frame"), "inspect.stack": lambda *a, **k: [],
-                 "inspect.currentframe": lambda *a, **k: Obj("frame"),
+        # the call stack at that moment, innermost first: the functions of the package the evaluation is in (known to the interpreter), then - the default of an attrs
+        # field being computed - the __init__ attrs generated for the class, then the user's workflow file that wrote `Workflow(...)`, then gwf's loader
+        holder = {}
+
+        def frame_list():
+            it_ = holder["interp"]
+            inner = [Obj("frame", _file="/site-packages/" + fi.module.relpath.replace("src/", "", 1), _func=fi.name) for fi in reversed(it_.__dict__.get("frames", []))]
+            outer = [Obj("frame", _file="<attrs generated init gwf.workflow.Workflow>", _func="__init__"), Obj("frame", _file="/link/proj/workflow.py", _func="<module>"),
+                     Obj("frame", _file="/site-packages/gwf/workflow.py", _func="load_workflow"), Obj("frame", _file="/site-packages/gwf/cli.py", _func="main")]
+            fl = inner + outer
+            for i_, fr in enumerate(fl):
+                setattr(fr, "f_back", fl[i_ + 1] if i_ + 1 < len(fl) else None)
+                setattr(fr, "f_code", Obj("code", co_filename=fr._file, co_name=fr._func))
+                setattr(fr, "f_globals", {"__file__": fr._file, "__name__": fr._func})
+                setattr(fr, "filename", fr._file)
+                setattr(fr, "function", fr._func)
+                setattr(fr, "frame", fr)
+            return fl
+
+        def h_getframe(depth=0):
+            fl = frame_list()
+            if depth >= len(fl):
+                raise Raised("ValueError", "call stack is not deep enough")
+            return fl[depth]
+
+        def h_getfile(obj):
+            return obj._file if isinstance(obj, Obj) and "_file" in obj.__dict__["_attrs"] else "/link/proj/workflow.py"
+        hooks = {"inspect.getfile": h_getfile, "inspect.getsourcefile": h_getfile, "inspect.getabsfile": h_getfile, "sys._getframe": h_getframe,
+                 "inspect.stack": lambda *a, **k: frame_list(), "inspect.currentframe": lambda *a, **k: frame_list()[0],
+                 "inspect.getframeinfo": lambda fr, *a, **k: fr, "inspect.getouterframes": lambda fr, *a, **k: [fr] + [x for x in _chain(fr)],
                  "os.path.realpath": lambda p_, *a, **k: real(p_), "attr:resolve": lambda recv, *a, **k: SymPath(real(recv)), "os.path.abspath": lambda p_: str(p_)}
+        def _chain(fr):
+            while getattr(fr, "f_back", None) is not None:
+                fr = fr.f_back
+                yield fr
         try:
-            got = PureInterp(ctx, hooks=hooks).call(gwd, (), {}, self_obj=Obj("workflow", **{"__class__": wf}) if gwd.cls is not None else None)
+            holder["interp"] = PureInterp(ctx, hooks=hooks)
+            got = holder["interp"].call(gwd, (), {}, self_obj=Obj("workflow", **{"__class__": wf}) if gwd.cls is not None else None)
         except (Raised, Unsupported) as exc:
             got = f"<{exc}>"
     r.check(got == "/real/proj", f"{wf.module.relpath}::Workflow._get_working_dir", "default working_dir = directory of the real path of the file that created the workflow (a str)",
